@@ -5,4 +5,5 @@ From Coq Require Import ExtrOcamlBasic.
 From Peppi Require Import Model.Api.
 Extraction Language OCaml.
 Extraction "model.ml"
-  api_b2n api_gte api_lt api_max_ok api_ver_show api_ver_parse api_nat_succ api_str_len api_z_succ.
+  api_b2n api_gte api_lt api_max_ok api_ver_show api_ver_parse api_nat_succ api_str_len api_z_succ
+  api_read api_write api_leaves api_row_vals api_col_names api_cjson_start api_cjson_end api_cjson_meta api_game_version.
